@@ -398,3 +398,50 @@ func (p Params) EkCoefficientsReduced(ek []byte) bool {
 	}
 	return true
 }
+
+// ---- boundary seeds.  SampleNTT needs more than three SHAKE128 blocks (504 bytes = 336 candidates) for about 0.15% of its streams:
+// that is where code that refills its buffer, carries left-over bytes from one squeeze to the next, or switches from a vectorised to a
+// scalar sampler is exercised.  BoundarySeed searches, deterministically from `start`, for a key-generation seed d whose matrix entry
+// (row, col) consumes more than `bytes` bytes of its stream.
+func streamBytesNeeded(rho []byte, j, i byte) int {
+	h := sha3.NewShake128()
+	_, _ = h.Write(rho)
+	_, _ = h.Write([]byte{j, i})
+	n, used := 0, 0
+	var c [3]byte
+	for n < N {
+		_, _ = h.Read(c[:])
+		used += 3
+		d1 := int(c[0]) + 256*int(c[1]&15)
+		d2 := int(c[1]>>4) + 16*int(c[2])
+		if d1 < Q {
+			n++
+		}
+		if d2 < Q && n < N {
+			n++
+		}
+	}
+	return used
+}
+
+func (p Params) BoundarySeed(start []byte, row, col, bytes, maxTries int) []byte {
+	d := append([]byte{}, start...)
+	for t := 0; t < maxTries; t++ {
+		var rho []byte
+		if p.MLKEM {
+			rho, _ = G(d, []byte{byte(p.K)})
+		} else {
+			rho, _ = G(d)
+		}
+		if streamBytesNeeded(rho, byte(col), byte(row)) > bytes {
+			return d
+		}
+		for i := 0; i < len(d); i++ {
+			d[i]++
+			if d[i] != 0 {
+				break
+			}
+		}
+	}
+	return nil
+}
